@@ -65,12 +65,25 @@ func (s *Sim) Universe() ([]types.Address, []types.CoinID) {
 
 // TakeSnap reads the universe through the same accessors CheckTx uses.
 func (s *Sim) TakeSnap() Snap {
-	out := Snap{}
-	cs := s.N.App.CurrentState()
 	addrs, coins := s.Universe()
+	return s.SnapOf(s.N, addrs, coins)
+}
+
+// SnapOf reads the given universe on any node (used to compare two instances through accessors, not through Export).
+func (s *Sim) SnapOf(n *Node, addrs []types.Address, coins []types.CoinID) Snap {
+	out := Snap{}
+	cs := n.App.CurrentState()
 	for _, a := range addrs {
 		as := a.String()
 		out["nonce/"+as] = fmt.Sprint(cs.Accounts().GetNonce(a))
+		if cs.Accounts().ExistsMultisig(a) {
+			if acc := cs.Accounts().GetAccount(a); acc != nil && acc.IsMultisig() {
+				ms := acc.Multisig()
+				out["msig/"+as] = fmt.Sprintf("%d %v %v", ms.Threshold, ms.Weights, ms.Addresses)
+			} else {
+				out["msig/"+as] = "exists"
+			}
+		}
 		for _, c := range coins {
 			b := cs.Accounts().GetBalance(a, c)
 			if b.Sign() != 0 {
